@@ -44,11 +44,50 @@ static std::string dmean(Toks& t) {
     return o.str();
 }
 
+// Variants "B": the arguments are blocks of larger matrices (Eigen::Ref with an outer stride), the result is
+// assigned back over the argument (aliasing through the returned temporary); the frame around the block must stay untouched.
+static std::string daddB(Toks& t, bool sub) {
+    long r = t.nat(), c = t.nat();
+    MatrixXd a = t.mat(r, c);
+    VectorXd b = t.vec(r);
+    t.done();
+    MatrixXd big = MatrixXd::Constant(r + 3, c + 2, 777.25);
+    VectorXd bb = VectorXd::Constant(r + 4, -555.5);
+    big.block(2, 1, r, c) = a; bb.segment(3, r) = b;
+    MatrixXd frame = big; frame.block(2, 1, r, c).setZero();
+    if (sub) big.block(2, 1, r, c) = directional_sub(big.block(2, 1, r, c), bb.segment(3, r));
+    else big.block(2, 1, r, c) = directional_add(big.block(2, 1, r, c), bb.segment(3, r));
+    MatrixXd res = big.block(2, 1, r, c);
+    big.block(2, 1, r, c).setZero();
+    if (!vh::same_bits(frame, big) || !vh::same_bits(VectorXd(bb.segment(3, r)), b)) return "frame-modified";
+    Out o; o.s("ok"); o.m(res);
+    return o.str();
+}
+
+static std::string dmeanB(Toks& t) {
+    long r = t.nat(), c = t.nat();
+    MatrixXd a = t.mat(r, c);
+    VectorXd w = t.vec(c);
+    t.done();
+    MatrixXd big = MatrixXd::Constant(r + 3, c + 2, 777.25);
+    VectorXd ww = VectorXd::Constant(c + 4, -555.5);
+    big.block(2, 1, r, c) = a; ww.segment(3, c) = w;
+    MatrixXd big0 = big; VectorXd ww0 = ww;
+    VectorXd res = directional_mean(big.block(2, 1, r, c), ww.segment(3, c));
+    if (res.rows() != r) return shape_err("result", res.rows(), 1, r, 1);
+    if (!vh::same_bits(big0, big) || !vh::same_bits(ww0, ww)) return "input-modified";
+    Out o; o.s("ok"); o.m(res);
+    return o.str();
+}
+
 int main() {
     return vh::run([](const std::string& op, Toks& t, std::string& out) {
         if (op == "dadd") { out = dadd(t, false); return true; }
         if (op == "dsub") { out = dadd(t, true); return true; }
         if (op == "dmean") { out = dmean(t); return true; }
+        if (op == "daddB") { out = daddB(t, false); return true; }
+        if (op == "dsubB") { out = daddB(t, true); return true; }
+        if (op == "dmeanB") { out = dmeanB(t); return true; }
         return false;
     });
 }
